@@ -592,7 +592,9 @@ class Exec(ExprMixin, CallMixin):
     return False
 
   def loop_ctx(self, st, kterm):
-    return C.Ctx(self.entry_args, self.entry_heap, st.heap, env=st.env, k=kterm)
+    c = C.Ctx(self.entry_args, self.entry_heap, st.heap, env=st.env, k=kterm)
+    c.view = getattr(self, '_cur_view', None)    # the sequence view a `for` loop iterates over
+    return c
 
   def check_loop_frame(self, spec, st_before, st_after, oid, node):
     """Rows outside the declared `mod` set must be unchanged by the body."""
@@ -641,6 +643,7 @@ class Exec(ExprMixin, CallMixin):
             return self.unroll(s, st, view, n)
       self.unsupp(f'loop #{o} without invariant', s)
     oid = f'loop{o}'
+    self._cur_view = view
     names = self.assigned_names(s.body)
     if isinstance(s, ast.For):
       names |= self.assigned_names([ast.Expr(value=s.target)]) | {
